@@ -45,9 +45,10 @@ def gen_cases(tier, seed):
             sp["start"] = W.gen_model_spec(rng, fam, br, exp=False)
         specs.append(sp)
     # exponential models that can be simulated directly, their parameter object having gone through assignments + initialisation()
-    for fam in ("HEM", "MERTON", "HEM"):
-        sp = W.gen_model_spec(rng, fam, None, exp=True)
-        sp["start"] = W.gen_model_spec(rng, fam, None, exp=False)
+    for k, fam in enumerate(("HEM", "MERTON", "HEM", "VG", "CGMY", "VG", "CGMY", "CGMY")):
+        br = W.CGMY_BRANCHES[(k + seed) % 5] if fam == "CGMY" else None
+        sp = W.gen_model_spec(rng, fam, br, exp=(k < 5))
+        sp["start"] = W.gen_model_spec(rng, fam, br, exp=False)
         specs.append(sp)
     specs.append({"family": "BS", "params": {"sigma": 0.3}, "exp": True, "spot": 100.0, "r": 0.05, "d": 0.02})
     return [{"spec": s, "seed": int(rng.integers(2**31))} for s in specs]
